@@ -141,6 +141,7 @@ func TestVerifC10Otelcol(t *testing.T) {
 				c.idx = i
 				c.failStart = vHas(pl.fcStart, i)
 				c.failStop = vHas(pl.fcStop, i)
+				c.sens = vHas(pl.cx.cSens, i)
 			}
 			armX := func(e *vExtBase) {
 				e.failStart = vHas(pl.fxStart, e.idx)
@@ -148,6 +149,7 @@ func TestVerifC10Otelcol(t *testing.T) {
 				e.failCfg = vHas(pl.fCfg, e.idx)
 				e.failReady = vHas(pl.fReady, e.idx)
 				e.failNotReady = vHas(pl.fNotReady, e.idx)
+				e.sens = vHas(pl.cx.xSens, e.idx)
 			}
 			w.onComp, w.onExt = armC, armX
 			set := CollectorSettings{
@@ -176,8 +178,15 @@ func TestVerifC10Otelcol(t *testing.T) {
 				out.Oracle("harness", "(3, ([], []))", "NewCollector: "+err.Error())
 				continue
 			}
+			// context scenario at this level: the plans with a context scenario end the run by
+			// cancelling Run's context instead of calling Shutdown(); the collector must then shut the
+			// service down under a LIVE context (collector.go: col.shutdown(context.Background())), so
+			// context-sensitive components see no error.  The component-level context behaviour
+			// (cancellers, contexts done beforehand) is exercised by the service / graph harnesses.
+			cancelRun := pl.cx.any()
+			runCtx, runCancel := context.WithCancel(context.Background())
 			done := make(chan error, 1)
-			go func() { done <- col.Run(context.Background()) }()
+			go func() { done <- col.Run(runCtx) }()
 			var errAll error
 			finished, asked := false, false
 			deadline := time.Now().Add(60 * time.Second)
@@ -187,7 +196,11 @@ func TestVerifC10Otelcol(t *testing.T) {
 					finished = true
 				default:
 					if !asked && col.GetState() == StateRunning {
-						col.Shutdown()
+						if cancelRun {
+							runCancel()
+						} else {
+							col.Shutdown()
+						}
 						asked = true
 					}
 					if time.Now().After(deadline) {
@@ -197,7 +210,14 @@ func TestVerifC10Otelcol(t *testing.T) {
 					time.Sleep(200 * time.Microsecond)
 				}
 			}
+			runCancel()
+			if cancelRun {
+				out.Stat("ended-by-context-cancel", 1)
+			}
 			w.mu.Lock()
+			if w.ret == nil {
+				w.ret = map[[2]int]bool{}
+			}
 			log := append([][2]int{}, w.log...)
 			ncomp, nonKey := len(w.comps), 0
 			for _, c := range w.comps {
@@ -208,7 +228,8 @@ func TestVerifC10Otelcol(t *testing.T) {
 			w.mu.Unlock()
 			c := &vCase{kind: 3, comps: comps, exts: exts, cfgw: cfgw, pipew: pipew, edges: edges, specEdges: edges,
 				deps: deps, hasConf: true, fxStart: pl.fxStart, fxStop: pl.fxStop, fcStart: pl.fcStart, fcStop: pl.fcStop,
-				fCfg: pl.fCfg, fReady: pl.fReady, fNotReady: pl.fNotReady, log: log}
+				fCfg: pl.fCfg, fReady: pl.fReady, fNotReady: pl.fNotReady, log: log, ret: w.ret,
+				cx: vCtx{xSens: pl.cx.xSens, cSens: pl.cx.cSens}}
 			c.errs = vErrList(errAll)
 			if ncomp != len(comps) || nonKey > 0 {
 				out.Oracle("graph-edges", c.term(), fmt.Sprintf("%d component instances created (%d unexpected), the configuration implies %d; error: %v", ncomp, nonKey, len(comps), errAll))
